@@ -149,6 +149,8 @@ pub enum Kind {
 }
 #[derive(Clone, Debug, Serialize, Deserialize)]
 pub enum Step {
+    /// the clock (inserted by the core's clock faults)
+    Wait { n: u32 },
     DocSet { name: u32, ver: u32 },
     DocRemove { name: u32 },
     Bind { t: u32 },
@@ -189,6 +191,9 @@ impl Check for Registries {
     }
     fn components(&self) -> serde_json::Value {
         serde_json::json!({"real": ["rwa::extensions::doc_manager", "rwa::utils::token_binder", "rwa::claim_topics_and_issuers::storage", "rwa::claim_issuer::{allow_key, remove_key, getters}"], "stub": ["YesRegistry (has_claim_topic = true) for the key registry only"]})
+    }
+    fn clock_step(&self, n: u32) -> Option<Step> {
+        Some(Step::Wait { n })
     }
     fn dup_ok(&self, _s: &Step) -> bool {
         true
@@ -324,6 +329,12 @@ impl Check for Registries {
                 let name = |n: u32| BytesN::<32>::from_array(e, &{ let mut b = [0u8; 32]; b[..4].copy_from_slice(&n.to_be_bytes()); b });
                 let mut m: BTreeMap<u32, u32> = BTreeMap::new();
                 for (i, s) in steps.iter().enumerate() {
+                    if let Step::Wait { n } = s {
+                        w.advance(*n);
+                        st.ledgers += *n as u64;
+                        st.hit("clock.advance");
+                        continue;
+                    }
                     let before = w.storage_digest(&[&id]);
                     let (kind, got, exp) = match s {
                         Step::DocSet { name: n, ver } => {
@@ -386,6 +397,12 @@ impl Check for Registries {
                 let t = |k: u32| toks[(k as usize) % toks.len()].clone();
                 let mut m: BTreeSet<u32> = BTreeSet::new();
                 for (i, s) in steps.iter().enumerate() {
+                    if let Step::Wait { n } = s {
+                        w.advance(*n);
+                        st.ledgers += *n as u64;
+                        st.hit("clock.advance");
+                        continue;
+                    }
                     let before = w.storage_digest(&[&id]);
                     let (kind, got, exp) = match s {
                         Step::Bind { t: k } => {
@@ -452,6 +469,12 @@ impl Check for Registries {
                 let mut topics: BTreeSet<u32> = BTreeSet::new();
                 let mut m: BTreeMap<u32, BTreeSet<u32>> = BTreeMap::new(); // issuer -> topics
                 for (i, s) in steps.iter().enumerate() {
+                    if let Step::Wait { n } = s {
+                        w.advance(*n);
+                        st.ledgers += *n as u64;
+                        st.hit("clock.advance");
+                        continue;
+                    }
                     let before = w.storage_digest(&[&id]);
                     let sv = |ts: &std::vec::Vec<u32>| Vec::from_iter(e, ts.iter().cloned());
                     let (kind, got, exp) = match s {
@@ -552,6 +575,12 @@ impl Check for Registries {
                 let pk = |k: u32| Bytes::from_array(e, &[k as u8 + 1; 32]);
                 let mut m: BTreeSet<(u32, u32, u32)> = BTreeSet::new();
                 for (i, s) in steps.iter().enumerate() {
+                    if let Step::Wait { n } = s {
+                        w.advance(*n);
+                        st.ledgers += *n as u64;
+                        st.hit("clock.advance");
+                        continue;
+                    }
                     let before = w.storage_digest(&[&id]);
                     let (kind, got, exp) = match s {
                         Step::AllowKey { key, topic, reg } => {
